@@ -175,7 +175,7 @@ def o_identify(ctx):
     ctx.claim('backbone-group-untouched', not bb.non_covalently_coupled_groups)
 
 
-def mk_pipeline_quiet(name, twin=None):
+def mk_pipeline_quiet(name, twin=None, params=None, debug_logging=False):
     """whole pipeline with and without the coupling search (NCCG.do_prot_stat):
     every pKa and determinant identical in every conformation; stars only
     where a partner was registered; buried parameters so that pairs reach the swap"""
@@ -192,14 +192,29 @@ def mk_pipeline_quiet(name, twin=None):
 
         def tr(a):
             a.z = a.z + t
+        import logging
         old = CG.NCCG.do_prot_stat
+        lg = logging.getLogger('propka')
+        old_level, old_disable = lg.level, logging.root.manager.disable
         try:
+            if debug_logging:
+                # a host application that runs with DEBUG logging (messages go nowhere: the output is not the subject)
+                logging.disable(logging.NOTSET)
+                lg.setLevel(logging.DEBUG)
+                if not any(isinstance(x, logging.NullHandler) for x in lg.handlers):
+                    lg.addHandler(logging.NullHandler())
+                lg.propagate = False
             CG.NCCG.do_prot_stat = False
-            off = M.run(txt, transform=tr, params=M.BURIED)
+            off = M.run(txt, transform=tr, params=params or M.BURIED)
             CG.NCCG.do_prot_stat = True
-            on = M.run(txt, transform=tr, params=M.BURIED)
+            on = M.run(txt, transform=tr, params=params or M.BURIED)
         finally:
             CG.NCCG.do_prot_stat = old
+            lg.setLevel(old_level)
+            lg.propagate = True
+            logging.disable(old_disable)
+        if params is M.COUPLED:
+            ctx.claim('coupled-pairs-present', any(g.non_covalently_coupled_groups for g in on.conformations[on.conformation_names[0]].groups))
         for cname in off.conformation_names:
             go, gn = off.conformations[cname].groups, on.conformations[cname].groups
             ctx.claim('same-groups', [g.label for g in go] == [g.label for g in gn])
@@ -250,6 +265,13 @@ def obligations(tier):
                               code=[CGm + 'identify_non_covalently_coupled_groups'] + code + ['propka/run.py:single (whole pipeline)'],
                               bounds='micro-structure %s%s, Nmin/Nmax lowered to 6/30 (pairs reach the swap), under a symbolic grid shift; coupling search switched off vs on' % (name, ' with an insertion-coded twin residue' if twin else ''),
                               claim_doc='every pKa and determinant identical with and without the coupling search; coupling symmetric', max_paths=5000, wall_s=170 if tier == 'quick' else 1200))
+    from . import micro as M
+    for name, dbg in ([('pep8', True), ('pair_ASP_ARG', False)] if tier == 'quick' else [('pep8', False), ('pep8', True), ('pair_ASP_ARG', False), ('pair_ASP_ARG', True), ('pair_ASP_ASP', True), ('pair_LYS_ASP', True), ('pair_GLU_ARG_TYR', False)]):
+        obs.append(Obligation('O4-pipeline-undisturbed[%s,coupled%s]' % (name, ',DEBUG logging' if dbg else ''), mk_pipeline_quiet(name, None, M.COUPLED, dbg),
+                              code=[CGm + 'identify_non_covalently_coupled_groups', CGm + 'print_out_swaps', CGm + 'print_system'] + code + ['propka/conformation_container.py:ConformationContainer.find_non_covalently_coupled_groups',
+                                                                                                                                       'propka/run.py:single (whole pipeline)'],
+                              bounds='micro-structure %s, burial on and coupling thresholds relaxed (coupled pairs present)%s, under a symbolic grid shift; coupling search switched off vs on; no -d' % (name, ', propka logger at DEBUG' if dbg else ''),
+                              claim_doc='every pKa and determinant identical with and without the coupling search (display of alternative states not requested); coupling symmetric', max_paths=5000, wall_s=170 if tier == 'quick' else 1200))
     if tier == 'thorough':
         for (q1, q2, pi) in ((-1, 1, 1), (-1, -1, 0), (1, 1, 2)):
           obs.append(Obligation('O1b-probe-with-real-folding-energy[q=%+d%+d,pattern%d]' % (q1, q2, pi), mk_swap(True, q1, q2, pi),
